@@ -79,7 +79,7 @@ HISTORY = {
     "C16-8": "caught as built (all flag combinations on all six presets)",
     "C17-8": "missed before the fourth round's generator change was made (no step of exactly +-0 met a non-finite entry); caught by the bit-exact tie afterwards",
     "C18-8": "missed before the direct ESH audit was widened beyond delta = 709 (exp overflow); caught with a failing input afterwards",
-    "C14-8": "C14 itself stays silent (its cases do not flush in the middle of the sampling phase); caught by C15, whose statement it breaks (flushed data are corrupted by a later flush)",
+    "C14-8": "missed by C14 at first (its cases never flushed in the middle of a run; C15 caught it): flushes at random steps added to the C14 cases",
 }
 
 
